@@ -416,6 +416,10 @@ impl Check for C15 {
     fn needs_binary(&self) -> bool {
         true
     }
+    fn fuzz_families(&self, _tier: Tier) -> Vec<(&'static str, u64)> {
+        // libFuzzer runs per job (16 jobs), sized from the measured speed of the instrumented build
+        vec![("in-process", 6000)]
+    }
     fn families(&self, tier: Tier) -> Vec<Family<'_>> {
         let cfg = GenCfg {
             max_files: 4,
